@@ -364,6 +364,31 @@ def b_hier(levels, fs, maxT, labels=False, window='none', transitive=False):
     return build
 
 
+def b_hier_counts(ref_counts, est_counts, fs, maxT, labels=False, window='none', transitive=False):
+    """hierarchies with the given number of segments per level; boundaries of different levels are independent
+    (so the hierarchy need not be nested: a deeper segment may straddle a shallower boundary)"""
+    def build(ctx, size=None):
+        T = ctx.gridnum('T', 100000)
+        ctx.assume(T > 0)
+        ctx.assume(T <= maxT)
+
+        def hier(tag, counts):
+            hs, ls = [], []
+            for lv, cnt in enumerate(counts):
+                hs.append(seg_intervals(ctx, '%s%d_' % (tag, lv), cnt, T))
+                ls.append(['%s%d_%d' % (tag, lv, i % 2 if labels == 'repeat' else i) for i in range(cnt)])
+            return hs, ls
+        rh, rl = hier('r', ref_counts)
+        eh, el = hier('e', est_counts)
+        kw = dict(frame_size=fs)
+        if labels:
+            return dict(ref=(rh, rl), est=(eh, el), kw=kw)
+        kw['transitive'] = transitive
+        kw['window'] = None if window == 'none' else window
+        return dict(ref=(rh,), est=(eh,), kw=kw)
+    return build
+
+
 def b_weighted_accuracy(ctx, size):
     n = size[0]
     comps = []
